@@ -35,7 +35,7 @@ func RandomProfile(r *vlib.Rng) Profile {
 	p.Tall = r.Chance(1, 8)
 	p.Rules = r.Chance(2, 3)
 	p.Exotic = p.Rules && r.Chance(1, 3)
-	p.Decor = r.Chance(2, 5)
+	p.Decor = r.Chance(1, 3)
 	if p.Decor {
 		p.Spacing = true
 		p.MaxUnits = r.Range(12, 36)
@@ -341,7 +341,7 @@ func Generate(r *vlib.Rng, p Profile) *Doc {
 		g.hc = vlib.Pick(r, []int{100, 120, 160, 200, 240})
 	}
 	d := &Doc{Tags: g.tags}
-	if r.Chance(1, 6) {
+	if r.Chance(1, 4) {
 		d.Rtl = true
 		g.tags["rtl"] = true
 	}
